@@ -21,7 +21,7 @@ def harnesses(tier):
         hs.append(wcommon.strings('c16_' + nm, 1, N, tier, 'valid UTF-8 in -> valid UTF-8 out: ' + nm, dict(F1=f1)))
     EN = 4 if tier == 'quick' else 5
     for fmt in (0, 2, 3, 5, 7):
-        hs.append(esccommon.escape('c16_esc', fmt, 3 if fmt in (2, 3) and tier == 'quick' else EN, tier, u8=True))
+        hs.append(esccommon.escape('c16_esc', fmt, (3 if tier == 'quick' else 4) if fmt in (2, 3) else EN, tier, u8=True))      # latex at 5 bytes: beyond 8 GB (measured)
     hs.append(dict(name='c16_char_table', src='c16/chartab.c', units=['repo:char.c'], unwind=4, timeout=300, mem_gb=4,
                    bounds='all 256 byte values (exhaustive)', desc='char.c smart_char_type: no byte >= 0x80 is classified as whitespace, line ending or punctuation by the byte-class predicates used for trimming'))
     hs.append(dict(name='c16_meta_value_at_eof', src='c11/stripvalue.c', defs=dict(TERM=0, VL=3, U8=1, DS_CAP=16),
